@@ -58,12 +58,8 @@ class References:
       orient = "+"
       if self._gfa.segment(from_segment.line) and self._gfa.segment(to_segment.line):
         l = self._gfa._search_link(from_segment, to_segment, cigar)
-        if l is not None and l.is_compatible_complement(from_segment, to_segment, cigar) \
-            and not (l.virtual and
-                     l.is_compatible_direct(from_segment, to_segment, cigar)):
-          # a placeholder link which this step matches directly (a hairpin
-          # matches in both ways) was created by an identical step: same flag
-          orient = "-"
+        if l is not None:
+          orient = self._link_orient(l, from_segment, to_segment, cigar)
         if l is not None and l.virtual and \
             gfapy.is_placeholder(l.overlap) and not gfapy.is_placeholder(cigar):
           # the placeholder link stands for the link which this step specifies
@@ -85,6 +81,20 @@ class References:
         l.connect(self._gfa)
       self._refs["links"].append(gfapy.OrientedLine(l,orient))
       l._add_reference(self, "paths")
+
+  @staticmethod
+  def _link_orient(link, from_segment, to_segment, cigar):
+    """
+    Orientation of a link in a step of the path: "-" if the step walks the
+    link backwards, i.e. it is matched by the complement of the link only
+    (a hairpin link can match a step in both ways: it is then taken forwards,
+    in whichever order the lines arrive).
+    """
+    if link.is_compatible_complement(from_segment, to_segment, cigar) and \
+        not link.is_compatible_direct(from_segment, to_segment, cigar):
+      return "-"
+    else:
+      return "+"
 
   def _initialize_segments(self):
     for sn_with_o in self.segment_names:
